@@ -178,9 +178,61 @@ def _strip(self: SymStr, left: bool, right: bool) -> SymStr:
     return SymStr(core)
 
 
-SymStr.lstrip = lambda self, chars=None: _strip(self, True, False) if chars is None else (_ for _ in ()).throw(HarnessError("lstrip(chars)"))  # type: ignore[attr-defined]
-SymStr.rstrip = lambda self, chars=None: _strip(self, False, True) if chars is None else (_ for _ in ()).throw(HarnessError("rstrip(chars)"))  # type: ignore[attr-defined]
-SymStr.strip = lambda self, chars=None: _strip(self, True, True) if chars is None else (_ for _ in ()).throw(HarnessError("strip(chars)"))  # type: ignore[attr-defined]
+class LazyStrip(SymStr):
+    """
+    x.strip() / lstrip() / rstrip() whose only use is a comparison with a constant: strip(x) == c  <=>  x in ws* c ws*
+    (c without leading/trailing whitespace; otherwise the comparison is false) - a regex membership instead of fresh
+    string variables.  Any other use materialises the fresh-variable model (`.t`).
+    """
+    __slots__ = ("base", "left", "right", "_t")
+
+    def __init__(self, base: SymStr, left: bool, right: bool):
+        self.base, self.left, self.right, self._t = base, left, right, None
+
+    @property
+    def t(self) -> Any:  # type: ignore[override]
+        if self._t is None:
+            self._t = _strip(self.base, self.left, self.right).t
+        return self._t
+
+    def _eq_const(self, c: str) -> Any:
+        if (self.left and c[:1] and c[0] in _WS_CHARS) or (self.right and c[-1:] and c[-1] in _WS_CHARS):
+            return z3.BoolVal(False)
+        parts = ([_ws_re()] if self.left else []) + ([z3.Re(z3.StringVal(c))] if c else []) + ([_ws_re()] if self.right else [])
+        if c == "" and self.left and self.right:
+            parts = [_ws_re()]
+        return z3.InRe(self.base.t, z3.Concat(*parts) if len(parts) > 1 else parts[0])
+
+    def __eq__(self, o: Any) -> Any:  # type: ignore[override]
+        if isinstance(o, str) and self._t is None:
+            return SymBool(self._eq_const(o))
+        return SymStr.__eq__(self, o)
+
+    def __ne__(self, o: Any) -> Any:  # type: ignore[override]
+        if isinstance(o, str) and self._t is None:
+            return SymBool(z3.Not(self._eq_const(o)))
+        return SymStr.__ne__(self, o)
+
+    def __hash__(self) -> int:  # type: ignore[override]
+        raise HarnessError("SymStr reached __hash__")
+
+    def __bool__(self) -> bool:
+        if self._t is None:
+            return bool(SymBool(z3.Not(self._eq_const(""))))
+        return SymStr.__bool__(self)
+
+
+def _mk_strip(left: bool, right: bool, what: str) -> Any:
+    def f(self: SymStr, chars: Any = None) -> SymStr:
+        if chars is not None:
+            raise HarnessError(f"{what}(chars)")
+        return LazyStrip(self, left, right)
+    return f
+
+
+SymStr.lstrip = _mk_strip(True, False, "lstrip")  # type: ignore[attr-defined]
+SymStr.rstrip = _mk_strip(False, True, "rstrip")  # type: ignore[attr-defined]
+SymStr.strip = _mk_strip(True, True, "strip")  # type: ignore[attr-defined]
 SymStr.isdigit = lambda self: SymBool(z3.InRe(self.t, z3.Plus(z3.Range(z3.StringVal("0"), z3.StringVal("9")))))  # type: ignore[attr-defined]
 SymStr.isspace = lambda self: SymBool(z3.InRe(self.t, z3.Plus(z3.Union(*[z3.Re(z3.StringVal(c)) for c in _WS_CHARS]))))  # type: ignore[attr-defined]
 
@@ -211,6 +263,9 @@ class _Rewrite(ast.NodeTransformer):
         self.generic_visit(node)
         if isinstance(node.func, ast.Name) and node.func.id == "len" and len(node.args) == 1:
             node.func = ast.Name(id="_len", ctx=ast.Load())
+        elif isinstance(node.func, ast.Attribute) and node.func.attr == "join" and len(node.args) == 1 and not node.keywords:
+            # sep.join(seq): str.join rejects proxies at the C level
+            return ast.Call(func=ast.Name(id="_join", ctx=ast.Load()), args=[node.func.value, node.args[0]], keywords=[])
         return node
 
     def visit_UnaryOp(self, node: ast.UnaryOp) -> Any:
@@ -220,9 +275,23 @@ class _Rewrite(ast.NodeTransformer):
         return node
 
 
+def _join(sep: Any, seq: Any) -> Any:
+    items = list(seq)
+    if not isinstance(sep, str) or not any(isinstance(x, SymStr) for x in items):
+        return sep.join(items)
+    parts: list[Any] = []
+    for i, x in enumerate(items):
+        if i and sep:
+            parts.append(z3.StringVal(sep))
+        parts.append(sterm(x))
+    return SymStr(z3.Concat(*parts) if len(parts) > 1 else parts[0])
+
+
 def _not(x: Any) -> Any:
     if isinstance(x, SymBool):
         return ~x
+    if isinstance(x, LazyStrip) and x._t is None:
+        return SymBool(x._eq_const(""))
     if isinstance(x, SymStr):
         return SymBool(z3.Length(x.t) == 0)
     return not x
@@ -235,6 +304,6 @@ def lift(fn: Any) -> Any:
     tree = _Rewrite().visit(ast.parse(src))
     ast.fix_missing_locations(tree)
     ns = dict(fn.__globals__)
-    ns.update(_in=_in, _len=_len, _not=_not)
+    ns.update(_in=_in, _len=_len, _not=_not, _join=_join)
     exec(compile(tree, f"<lifted {fn.__name__}>", "exec"), ns)
     return ns[fn.__name__]
